@@ -17,17 +17,20 @@ import GoBk.Proofs.EcdsaVectors
   (NewJSONEnvelope signs the canonical payload that IsValid verifies).
     * `isValid pr payload sig pk mime : Res` — `.valid` = (true, nil), `.invalid` = (false, nil),
       `.error` = (false, err); the optional JSON fields are `Option Bytes`.
-    * `newEnvelope pr fuel pl t` — `pl` is WHATEVER `json.Marshal(payload)` returned (a parameter:
-      the theorems hold for every byte string), `t` the tape of `crypto/rand` reads, `fuel` bounds the
+    * `newEnvelope pr fuel pl t` — `pl` is the payload AS STORED in the envelope: what `json.Marshal(payload)`
+      returned, made valid UTF-8 (fix e93bcb8; `Envelope.newEnvelopeRaw` / `sanitizeUtf8`, theorems in C20b); a
+      parameter: the theorems of this file hold for every byte string. `t` the tape of `crypto/rand` reads, `fuel` bounds the
       RFC 6979 candidates tried by `Sign`.  `none` = an error is returned.
   SHA-256 and base64 are parameters (`pr : Prims`); NO assumption on them is needed in this file.
   "Valid ECDSA signature in the sense of C03" is `Ecdsa.verify`, characterised by `C03.verify_iff`.
 
   JSON round trip of the envelope (`own_valid_roundtrip`): the model has no JSON encoder.  The
   statement is about ANY `roundtrip` function applied to the three string fields; the assumption
-  that `json.Marshal`/`json.Unmarshal` of a `JSONEnvelope` is the identity on them (true for valid
-  UTF-8 strings, which hex strings and marshalled JSON are) is the explicit hypothesis `hrt`; the
-  differential harness checks it on the real code.
+  that `json.Marshal`/`json.Unmarshal` of a `JSONEnvelope` is the identity on them is the explicit
+  hypothesis `hrt`.  It holds exactly for well-formed UTF-8 strings — which marshalled JSON need NOT be
+  (json.RawMessage, custom Marshalers: defect D14) — and is DISCHARGED in `Props/C20b.lean`
+  (`own_valid_json_roundtrip`) from a model of encoding/json's string encoder/decoder (Model/JsonString,
+  tied to the real encoding/json by the `json.*` streams) and the sanitisation the repaired code applies.
 
   Property theorems only; proofs are in `GoBk.Proofs.EnvelopeLemmas`.
 
